@@ -76,6 +76,49 @@ CHECKS = [
               'accuracy: the 5e-5 bound is exercised by the search on the shipped problems.',
          note='quadrature accuracy of the real operators and the complex-erf closed forms of the Smooth problems are not '
               'covered by theorems; translator patterns trusted'),
+    dict(id='C01', design_ref='DESIGN.md section 6 / C01', category='proof',
+         technique='Lean 4 theorems on the panel recursion / request / generated kernels + exact execution of the real bilform (Q numbers, stand-in special functions) + formula translator',
+         text='Partial. Proved for all rational inputs: the panel recursion of __integrate is total on grid-aligned inputs, '
+              'its panels tile the parameter rectangle, each singular rule sits exactly on the singular set (diagonal, '
+              'touching corner, seam), the variable swap feeds the right parametrisation, derived rules are exact on '
+              'polynomials (C15); for the formulas regenerated from the Python source on every run: four-term structure, '
+              "F' = g and g' = -G under the law of Ei, the closed forms satisfy fint_2/3/4 = Psi-combinations. Tie: the real "
+              'bilform (both paths) run in exact rational arithmetic equals the model on every position class. NOT proved: '
+              'that the fixed order-12 rules reach 1e-7 on the heat kernel -- searched against an independent reference.',
+         note='special functions enter as parameters with stated laws; accuracy of fixed rules on non-polynomial integrands and binary64 rounding are outside every theorem'),
+    dict(id='C04', design_ref='DESIGN.md section 6 / C04', category='proof',
+         technique='Lean 4 theorems (acausal => literal zero on every path and in every generated kernel; matrix = table of calls, block lower triangular) + exact zero-structure correspondence',
+         text='Proof of the zero structure: acausal => bilform returns the literal 0 on both paths, and independently of the '
+              'guard the generated kernels (four-term time kernel, fint_k, stik_k, time-integrated kernel, steval_k) '
+              'vanish for every choice of special functions; evaluate / evaluate_exact / potential are 0 for t <= start '
+              '(equality included); bilform_matrix is exactly the table of single calls with rows = test, hence block '
+              'lower triangular. Sign: the kernel is a second primitive of G >= 0 (derivative identities under the law of Ei). '
+              'Positivity beyond rounding in binary64 is search-only (partial for that clause).',
+         note='cancellation in the four-term formula in binary64 is not modelled'),
+    dict(id='C07', design_ref='DESIGN.md section 6 / C07', category='proof',
+         technique='Lean 4 theorems on the evaluation plan and the closed-form variant + exact execution of the real evaluate / evaluate_exact',
+         text='Partial. Proved: the branch taken by evaluate (zero iff t <= start; in-element split graded towards the '
+              'singular point; otherwise the point set graded towards the seam-aware nearer end point; end-point cases), the '
+              'inline kernels equal the generated time-integrated kernel, evaluate_exact equals steval_1/steval_2 = gint '
+              'combinations in every case and never falls through. Tie: real evaluate / evaluate_exact on Q numbers equal '
+              'the model on all point x time classes. The 1e-8 / 5e-4 / 2e-3 accuracy zones are searched against a graded reference.',
+         note='accuracy of the fixed log rule near the element is not a theorem'),
+    dict(id='C11', design_ref='DESIGN.md section 6 / C11', category='proof',
+         technique='Lean 4 theorems (telescoping of the time kernels, Psi-additivity of the closed forms, tiling) + exact execution',
+         text='Partial. Proved: the four-term time kernel and all stik_k are exactly additive under splitting either time '
+              'interval (for every choice of special functions); the closed-form space integrals are Psi-combinations, hence '
+              'exactly additive in space; parent and children panels tile the same rectangle with rules exact on '
+              'polynomials. Tie: in exact arithmetic with law-respecting stand-ins the closed-form path is additive to the '
+              'last digit for all 3x3 split kinds; the quadrature path equals the model. For the true kernel on the '
+              'quadrature path additivity holds up to quadrature error: searched (1e-7 scaled).',
+         note='quadrature error of parent vs children rules is not bounded by a theorem'),
+    dict(id='C12', design_ref='DESIGN.md section 6 / C12', category='proof',
+         technique='Lean 4 theorems (exchange and time-shift invariance of the model result, errors included) + exact and bitwise correspondence',
+         text='Partial. Proved: exchanging the space data of test and trial (times fixed) and shifting both time intervals '
+              'leave the result of the model identical on both paths (the content of "bit for bit"); mirrors are commuting '
+              'involutions. Tie: exact runs of the real bilform; floats: exchange and dyadic shifts bitwise on the real code. '
+              'Invariance under motions of the curve (which change the panel decomposition) is searched to 1e-7 scaled.',
+         note='rotation/reflection invariance for the true kernel holds only up to quadrature error'),
 ]
 for p in _PENDING:
     if p not in [c['id'] for c in CHECKS]:
